@@ -17,7 +17,7 @@ Norm(s) == Squeeze([i \in DOMAIN s |-> Up(s[i])])
 RECURSIVE Grow(_)         \* a blank line after every blank line: drifts
 Grow(s) == IF s = <<>> THEN <<>> ELSE IF s[1] = "" THEN <<"", "">> \o Grow(Tail(s)) ELSE <<s[1]>> \o Grow(Tail(s))
 Indent(s) == [i \in DOMAIN s |-> IF s[i] = "" THEN "" ELSE " " \o s[i]]      \* re-indents cumulatively: drifts
-Case(W(_)) == [t1 |-> W(src), t2 |-> W(W(src)), ir1 |-> Norm(src), ir2 |-> Norm(W(src))]
+Case(W(_)) == [t1 |-> W(src), t2 |-> W(W(src)), ir1 |-> Norm(src), ir2 |-> Norm(W(src)), rb |-> TRUE, gf |-> TRUE]
 
 NormAccepted == Findings(Case(Norm)) = <<>>
 GrowRejected == (\E i \in DOMAIN src : src[i] = "" /\ (\E j \in 1..(i - 1) : src[j] # "") /\ (\E j \in (i + 1)..Len(src) : src[j] # "")) =>
@@ -29,10 +29,13 @@ GrowRejected == (\E i \in DOMAIN src : src[i] = "" /\ (\E j \in 1..(i - 1) : src
 IndentRejected == (\E i \in DOMAIN src : src[i] # "") => \E k \in DOMAIN Findings(Case(Indent)) : Findings(Case(Indent))[k][1] = "text-fixpoint"
 \* empty lines at the two ends of the text do not count (the frontend strips the text it reads)
 Pad(s) == <<"">> \o s \o <<"", "">>
-EndsExempt == Findings([t1 |-> Pad(Norm(src)), t2 |-> Norm(src), ir1 |-> Norm(src) \o <<"BLANK">>, ir2 |-> Norm(src)]) = <<>>
+EndsExempt == Findings([t1 |-> Pad(Norm(src)), t2 |-> Norm(src), ir1 |-> Norm(src) \o <<"BLANK">>, ir2 |-> Norm(src), rb |-> TRUE, gf |-> TRUE]) = <<>>
 \* a writer whose output is stable but loses structure (drops the lines "A") is rejected by the IR clause
 Drop(s) == SelectSeq(s, LAMBDA l : l # "A")
 DropRejected == (\E i \in DOMAIN src : src[i] = "A") =>
-                   LET c == [t1 |-> Drop(src), t2 |-> Drop(Drop(src)), ir1 |-> src, ir2 |-> Drop(src)] IN
+                   LET c == [t1 |-> Drop(src), t2 |-> Drop(Drop(src)), ir1 |-> src, ir2 |-> Drop(src), rb |-> TRUE, gf |-> TRUE] IN
                    Findings(c) # <<>> /\ Findings(c)[1][1] = "ir-identical"
+\* a written text that cannot be read back (or that a compiler rejects) is rejected whatever the rest of the record says
+Unreadable == Findings([Case(Norm) EXCEPT !.rb = FALSE, !.t2 = <<>>, !.ir2 = <<>>]) = <<<<"read-back", 0>>>>
+NotCompiling == Findings([Case(Norm) EXCEPT !.gf = FALSE]) = <<<<"written-text-compiles", 0>>>>
 =============================================================================
